@@ -233,16 +233,6 @@ impl Pair {
         a
     }
 
-    /// Register an address (no contract, e.g. a pure recipient) for balance comparison.
-    pub fn watch(&mut self, label: &str) -> String {
-        let a = user(label);
-        if !self.accounts.contains(&a) {
-            self.accounts.push(a.clone());
-            self.names.insert(a.clone(), label.to_string());
-        }
-        a
-    }
-
     pub fn name(&self, a: &str) -> String {
         self.names.get(a).cloned().unwrap_or_else(|| a.to_string())
     }
